@@ -1708,7 +1708,7 @@ func c05Cache(c C) {
 	for _, s := range stores {
 		v := ir.Render(s.Val)
 		if v == "true" {
-			c.Guards("mempool.(*Mempool).AddTx", "BasicChecked=true", s.Instr, G{"after-successful-basic-check", "eq(*CheckTx(*tx,mempool.BasicCheck*),nil) || eq(*CheckTx(*,false),nil) || eq(*CheckTx*,nil)"})
+			c.GuardsS("mempool.(*Mempool).AddTx", "BasicChecked=true", s, G{"after-successful-basic-check", "eq(*CheckTx(*tx,mempool.BasicCheck*),nil) || eq(*CheckTx(*,false),nil) || eq(*CheckTx*,nil)"})
 		} else {
 			c.R.Check("K3", "cache/BasicChecked-initial/"+ir.FuncName(ir.EnclosingTop(s.Fn)), p.InstrPos(s.Instr), v == "false", "entries are created unchecked: "+v)
 		}
